@@ -62,6 +62,15 @@ type caseCfg struct {
 
 var cur *caseCfg
 
+// per-call watchdog: a call that has not completed by then is recorded as "caller-hangs";
+// after maxHangs of them the sub-process stops generating (fail fast, stats still written)
+const (
+	callWatchdog = 3 * time.Second
+	maxHangs     = 3
+)
+
+var hangs int
+
 // ---------------------------------------------------------------- plugins
 
 type splugin struct{}
@@ -381,14 +390,16 @@ func (l *link) run(c *caseCfg) observation {
 		if st != nil {
 			o.msg, o.cause = rawFields(st)
 		}
-	case <-time.After(5 * time.Second):
+	case <-time.After(callWatchdog):
 		o.hung = true
-		// the session is unusable for further cases
+		// the session is unusable for further cases; a graceful Close would wait for the
+		// call that never completes, so it must not be waited for
 		if l.srvConn != nil {
 			l.srvConn.Close()
 		}
-		sess.Close()
+		go sess.Close()
 		l.sess = nil
+		hangs++
 		return o
 	}
 	o.resultMatch, o.resultRepr = check()
@@ -477,7 +488,7 @@ func oracle(st *Stats, idx int, c *caseCfg, o observation) {
 	h := c.human()
 	got := fmt.Sprintf("(%d,%q,%q) result=%s", o.code, o.msg, o.cause, o.resultRepr)
 	if o.hung {
-		st.Fail(idx, "caller-hangs", "the call never completed (5 s)", h)
+		st.Fail(idx, "caller-hangs", "the call never completed (watchdog 3 s)", h)
 		return
 	}
 	if c.invoked > 1 {
@@ -777,9 +788,13 @@ func (r *rawLink) run(rc *rawCase) observation {
 	go func() {
 		doneCh <- sess.Call("/any/route", &Arg{A: 1}, &rc.result, erpc.WithBodyCodec('j'))
 	}()
-	req, err := r.rp.Recv(5 * time.Second)
+	req, err := r.rp.Recv(callWatchdog)
 	if err != nil {
-		Must(errors.New("scripted server: no request: " + err.Error()))
+		// the request never arrived: the call cannot complete normally
+		r.rp.Conn.Close()
+		r.sess = nil
+		hangs++
+		return observation{hung: true}
 	}
 	var body []byte
 	switch rc.body {
@@ -807,10 +822,11 @@ func (r *rawLink) run(rc *rawCase) observation {
 		if st != nil {
 			o.msg, o.cause = rawFields(st)
 		}
-	case <-time.After(5 * time.Second):
+	case <-time.After(callWatchdog):
 		o.hung = true
 		r.rp.Conn.Close()
 		r.sess = nil
+		hangs++
 		return o
 	}
 	o.resultMatch = rc.result.R == 42 && rc.result.S == "x!"
@@ -862,7 +878,7 @@ func rawOracle(st *Stats, idx int, rc *rawCase, o observation) {
 	h := rc.human()
 	got := fmt.Sprintf("(%d,%q,%q) result=%+v", o.code, o.msg, o.cause, rc.result)
 	if o.hung {
-		st.Fail(idx, "caller-hangs", "the call never completed (5 s)", h)
+		st.Fail(idx, "caller-hangs", "the call never completed (watchdog 3 s)", h)
 		return
 	}
 	var want *statusSpec
@@ -905,7 +921,26 @@ func child(cfg *RunCfg, proto string) {
 	distinct := DistinctSet{}
 	rl := &rawLink{l: l}
 	scripted := proto == "raw" || proto == "json" || proto == "pb" || proto == "http" || proto == "thrift-binary"
+	// deliberate sequence: a call answered with a non-OK status, then a plain successful call
+	// on the same codec whose reply is read on a recycled (process-wide pooled) context
+	var followUp *caseCfg
+	ran := 0
 	for i := 0; i < cfg.N; i++ {
+		if hangs >= maxHangs {
+			st.Count("aborted-after-hangs")
+			break
+		}
+		ran++
+		if followUp != nil {
+			c := followUp
+			followUp = nil
+			o := l.run(c)
+			st.Count("proto:" + proto)
+			st.Count("sequence:ok-after-error")
+			oracle(st, i, c, o)
+			w.Add(c.inputs(), c.observedVal(o))
+			continue
+		}
 		if scripted && i%6 == 5 {
 			rc := genRawCase(cfg, proto)
 			o := rl.run(rc)
@@ -920,6 +955,18 @@ func child(cfg *RunCfg, proto string) {
 			continue
 		}
 		c := genCase(cfg, proto)
+		if i%7 == 3 && c.failure != "f102" {
+			// first half of the deliberate sequence
+			c.sVerdict, c.cVerdict, c.mismatch = map[string]statusSpec{}, map[string]statusSpec{}, false
+			if cfg.Rng.Intn(2) == 0 {
+				c.failure, c.handler = "f404", "ok"
+			} else {
+				c.failure, c.handler = "none", "status"
+				c.hstat = genStatus(cfg, proto == "http", "hs", false)
+			}
+			followUp = &caseCfg{proto: proto, codec: c.codec, failure: "none", handler: "ok",
+				sVerdict: map[string]statusSpec{}, cVerdict: map[string]statusSpec{}}
+		}
 		o := l.run(c)
 		st.Count("proto:" + proto)
 		st.Count(fmt.Sprintf("codec:%c", c.codec))
@@ -946,7 +993,7 @@ func child(cfg *RunCfg, proto string) {
 			st.Samples = append(st.Samples, c.human()+" => "+c.observedVal(o))
 		}
 	}
-	st.Evaluations = cfg.N
+	st.Evaluations = ran
 	st.DistinctNontrivial = len(distinct)
 	st.Write(cfg, w)
 }
